@@ -28,6 +28,8 @@ const (
 	kBool
 	kArr  // [2]int value (copied on assignment)
 	kList // read-only list of kArr (the receiver of a Less method)
+	kStruct // a struct value with named fields
+	kLen    // a slice known only by its length
 )
 
 type value struct {
@@ -37,6 +39,7 @@ type value struct {
 	b    bool
 	arr  [2]*value
 	list []value
+	flds map[string]*value
 }
 
 func atomV(id int) value  { return value{k: kAtom, atom: id} }
@@ -172,6 +175,14 @@ func (it *interp) eval(e ast.Expr) value {
 			return base.list[idx.n].copy()
 		}
 		it.fail("index of a non-array")
+	case *ast.SelectorExpr:
+		base := it.eval(x.X)
+		if base.k == kStruct {
+			if f, ok := base.flds[x.Sel.Name]; ok {
+				return f.copy()
+			}
+		}
+		it.fail("selector %s on a value that is not a modelled struct", x.Sel.Name)
 	case *ast.UnaryExpr:
 		v := it.eval(x.X)
 		switch {
@@ -254,6 +265,16 @@ func (it *interp) eval(e ast.Expr) value {
 func (it *interp) call(c *ast.CallExpr) []value {
 	if core.IsConversion(it.info, c) && len(c.Args) == 1 {
 		return []value{it.eval(c.Args[0])}
+	}
+	if core.IsBuiltin(it.info, c, "len") && len(c.Args) == 1 {
+		v := it.eval(c.Args[0])
+		switch v.k {
+		case kLen:
+			return []value{concV(v.n)}
+		case kList:
+			return []value{concV(int64(len(v.list)))}
+		}
+		it.fail("len of an unmodelled value")
 	}
 	fn := core.Callee(it.info, c)
 	if fn == nil || fn.Pkg() == nil || (fn.Pkg().Path() != core.PkgGts && fn.Pkg().Path() != core.PkgSeqio) {
@@ -624,4 +645,34 @@ func QuotientUses(p *core.Prog, pkg, name string, idx int, moduli []int64) (bool
 		return true
 	})
 	return why == "", why
+}
+
+// EvalOriginLen evaluates a method with a struct receiver modelled by its
+// fields: byte-slice fields are given by length only, boolean fields by value.
+func EvalMethodOnStruct(p *core.Prog, pkg, name string, lens map[string]int64, bools map[string]bool) (Result, error) {
+	fd := p.FuncDecl(pkg, name)
+	if fd == nil || fd.Body == nil {
+		return Result{}, fmt.Errorf("anchor-unresolved: %s.%s", pkg, name)
+	}
+	recv := &value{k: kStruct, flds: map[string]*value{}}
+	for k, n := range lens {
+		recv.flds[k] = &value{k: kLen, n: n}
+	}
+	for k, b := range bools {
+		recv.flds[k] = &value{k: kBool, b: b}
+	}
+	out, err := evalFunc(p, p.Info(pkg), fd, nil, recv, nil)
+	if err != nil {
+		return Result{}, err
+	}
+	if len(out) != 1 {
+		return Result{}, fmt.Errorf("method does not return a single value")
+	}
+	switch out[0].k {
+	case kConc:
+		return Result{Int: out[0].n}, nil
+	case kBool:
+		return Result{Bool: out[0].b, IsB: true}, nil
+	}
+	return Result{}, fmt.Errorf("result is neither an integer nor a boolean")
 }
